@@ -2,7 +2,10 @@
 
 package querylog
 
-import "net"
+import (
+	"context"
+	"net"
+)
 
 // VerifC08Entry is one record of the in-memory buffer as the C08 harness sees
 // it.
@@ -34,4 +37,9 @@ func VerifC08Mem(q QueryLog) (out []VerifC08Entry) {
 // may rename the log file under the harness).
 func VerifC08InitWeb(q QueryLog) {
 	q.(*queryLog).initWeb()
+}
+
+// VerifC08Rotate calls the real rotate (querylog.json -> querylog.json.1).
+func VerifC08Rotate(q QueryLog) (err error) {
+	return q.(*queryLog).rotate(context.Background())
 }
